@@ -1356,6 +1356,19 @@ def e2e_check(ctx, case, results, answers):
                               'prolongation', 'entry {} (factors {}): expected stored entry {} = {} got {}'.format(
                                   list(ridx), ks, flat, vt, tok), rc)
                 break
+    if api == 'deform' and case.get('node_shift'):
+        # displacement by whole strides that stays on the grid: the template re-indexed
+        ctx.hit('e2e/theorem/deform_onto_nodes')
+        for k, (gidx, tok) in enumerate(zip(itertools.product(*[range(n) for n in dims]), toks)):
+            flat = 0
+            for i, s_, n in zip(gidx, [row[k] for row in case['node_shift']], dims):
+                flat = flat * n + (i + s_)
+            vt = case['vals'][flat]
+            if differs(tok, parse_c(vt)):
+                ctx.violation(key + 'displacement by whole strides does not re-index the template',
+                              'entry {} shift {}: expected stored entry {} = {} got {}'.format(
+                                  list(gidx), [row[k] for row in case['node_shift']], flat, vt, tok), rc)
+                break
     if numeric and case.get('affine_data') and set(sch) == {'l'}:
         ctx.hit('e2e/theorem/' + ('resampling_affine_exact' if api == 'resampling' else 'deform_affine_exact'))
         for pt, ins, tok in zip(pts, inside, toks):
@@ -1549,6 +1562,19 @@ def theorem_op_cases(rng, reps):
                             disp=[['0'] * size for _ in range(d)],
                             vals=gen_values(rng, size, rdt, distinct=True), single_string=False,
                             use_out=(rep % 2 == 1), aseed=rng.getrandbits(30)))
+            # displacement by whole strides that keeps every point on the grid (any scheme mix)
+            dom, _ = gen_space_pair(rng, d, rdt, False)
+            coords = spec_coords(dom)
+            shifts, disp = [[] for _ in range(d)], [[] for _ in range(d)]
+            for gidx in itertools.product(*[range(n) for n in dom['shape']]):
+                for j, (i, n) in enumerate(zip(gidx, dom['shape'])):
+                    s_ = rng.randint(-i, n - 1 - i)
+                    shifts[j].append(s_)
+                    disp[j].append(frs(coords[j][i + s_] - coords[j][i]))
+            out.append(dict(kind='interp', api='deform', sch=''.join(rng.choice('ln') for _ in range(d)),
+                            dtype=rdt, dom=dom, disp=disp, node_shift=shifts,
+                            vals=gen_values(rng, int(np.prod(dom['shape'])), rdt, distinct=True),
+                            single_string=False, use_out=(rep % 2 == 0), aseed=rng.getrandbits(30)))
             dom, _ = gen_space_pair(rng, d, 'float64', False)
             coords = spec_coords(dom)
             gpts = list(itertools.product(*coords))
@@ -3010,7 +3036,7 @@ MODEL_BRANCHES = ['axis/{}/{}'.format(s_, b) for s_ in 'ln' for b in ('lo', 'hi'
      'misc/meshgrid-test', 'misc/optional-arg-decorator', 'misc/space-init', 'misc/element-accessors',
      'sampling/vector/tuple-mesh+out', 'sampling/vector/tuple-array+out'] + \
     ['e2e/theorem/' + b for b in ('resampling_same_grid_identity', 'resampling_affine_exact', 'resampling_nearest_refine', 'resampling_nearest_refine_inverse', 'roundtrip-nondyadic',
-                                  'deform_zero_identity', 'deform_affine_exact')]
+                                  'deform_zero_identity', 'deform_affine_exact', 'deform_onto_nodes')]
 
 
 LAYOUT_BRANCHES = ['layout/{}/{}'.format(e, l) for e in
